@@ -73,8 +73,20 @@ def generate(seed, tier, cfg):
             kind = f.choice(("F1", "F2", "F2", "F3", "F4", "F5", "F6"))
         err = {"F1": 28, "F2": f.choice((28, 5)), "F3": 28, "F4": 0, "F5": f.choice((2, 13)), "F6": 5, "F9": f.choice((0, 404, -1))}[kind]
         faults.append({"kind": kind, "path": "*", "at": f.choice((0, 0, 1, 2)) if kind in ("F2", "F4", "F6") else 0, "errno": err, "frac": (round(f.random(), 3) if kind in ("F2", "F4", "F6") and f.random() < 0.5 else None)})
+    cross = False
+    if cfg == "mei-rt" and rich and k.random() < 0.3:
+        # a voice that visits the other staff for one note (cross-staff notation)
+        for p in asc["parts"]:
+            staves = sorted(set(n["staff"] for n in p["notes"]))
+            cands = [n for n in p["notes"] if n["kind"] == "note" and not n.get("tie_next") and not n.get("tie_prev") and not n.get("grace_prev") and n.get("g") is None]
+            if len(staves) == 2 and cands:
+                n = cands[k.randrange(0, len(cands))]
+                n["staff"] = staves[0] if n["staff"] == staves[1] else staves[1]
+                cross = True
+                break
     knobs = _knobs(k, rich, ext, route)
     knobs["mid"] = mid
+    knobs["cross_staff"] = cross
     if cfg == "kern-in" and knobs["style"]["same_part"] and len(asc["parts"]) > 1:
         # several spines of ONE part (e.g. the staves of a piano part): keep a part that has two staves
         two = [p for p in asc["parts"] if len(set(n["staff"] for n in p["notes"])) > 1]
